@@ -21,7 +21,8 @@ import TinsModel.Gen.RawSites
     * `unmodelled why`                   the access reads wire bytes and the Lean side has NO fault-explicit mirror of it (typically: the
                                          model of a typed option decoder is a total function over a byte list where the C++ walks a raw
                                          pointer).  Correspondence under the sanitizers only.  Counted in the evidence
-                                         (`raw_sites_unmodelled`).
+                                         (`raw_sites_unmodelled`).  (The typed decoders that walk a raw pointer have such mirrors
+                                         since TinsModel/Wire/Raw/*.lean: `raw decoder = total decoder` for all byte strings.)
     `guards` cites the conditions of the same function the disposition relies on, as keys of `Gen.RawSites.guards`.
 
   Three kinds of sites are handled by RULE, because the translator establishes the relevant fact syntactically:
@@ -128,49 +129,49 @@ def table : List (Key × Disposition) := [
     .modelled "Tins.Wire.Wifi.Dot11.taggedLoop" "Dot11::add_tagged_option" "Tins.Wire.Wifi.Dot11.dot11_parse_safe" [rk% "Dot11::parse_tagged_parameters(Memory::InputMemoryStream &) | guard | !stream.can_read(length)"]),
   -- Dot11ManagementFrame::channel_switch_type::from_option(const Tins::Dot11::option &)
   (rk% "Dot11ManagementFrame::channel_switch_type::from_option(const Tins::Dot11::option &) | deref | *(ptr++) | x3",
-    .unmodelled "Tins.Wire.Wifi.Tagged.decodeChannelSwitch is a total function over the option's byte list (byteAt / drop / structural recursion), not a fault-explicit pointer walk; tie: typed-getter sweep of harness/wire_wifi.h under ASan; why it does not fault: three reads after data_size == 3"),
+    .modelled "Tins.Wire.Raw.Wifi.channelSwitch" "channel_switch_type::from_option *(ptr++)" "Tins.Wire.Raw.Wifi.channelSwitch_eq (= Tagged.decodeChannelSwitch, which harness/wire_wifi.h compares with the typed getter; Props.C01.raw_decoders_safe_wifi)" [rk% "Dot11ManagementFrame::channel_switch_type::from_option(const Tins::Dot11::option &) | guard | opt.data_size() != sizeof(uint8_t) * 3"]),
   -- Dot11ManagementFrame::country_params::from_option(const Tins::Dot11::option &)
   (rk% "Dot11ManagementFrame::country_params::from_option(const Tins::Dot11::option &) | deref | *(ptr++) | x3",
-    .unmodelled "Tins.Wire.Wifi.Tagged.decodeCountry / triplesOf is a total function over the option's byte list (byteAt / drop / structural recursion), not a fault-explicit pointer walk; tie: typed-getter sweep of harness/wire_wifi.h under ASan; why it does not fault: copy of 3 bytes after data_size >= 6 (minimum_size), then triplets inside `end - ptr >= 3`"),
+    .modelled "Tins.Wire.Raw.Wifi.countryLoop" "country_params::from_option *(ptr++)" "Tins.Wire.Raw.Wifi.country_eq (= Tagged.decodeCountry, which harness/wire_wifi.h compares with the typed getter; Props.C01.raw_decoders_safe_wifi)" [rk% "Dot11ManagementFrame::country_params::from_option(const Tins::Dot11::option &) | guard | opt.data_size() < country_params::minimum_size", rk% "Dot11ManagementFrame::country_params::from_option(const Tins::Dot11::option &) | guard | end - ptr >= 3", rk% "Dot11ManagementFrame::country_params::from_option(const Tins::Dot11::option &) | guard | ptr != end && !only_padding_left"]),
   (rk% "Dot11ManagementFrame::country_params::from_option(const Tins::Dot11::option &) | ptrArith | ptr + opt.data_size()",
-    .unmodelled "Tins.Wire.Wifi.Tagged.decodeCountry / triplesOf is a total function over the option's byte list (byteAt / drop / structural recursion), not a fault-explicit pointer walk; tie: typed-getter sweep of harness/wire_wifi.h under ASan; why it does not fault: copy of 3 bytes after data_size >= 6 (minimum_size), then triplets inside `end - ptr >= 3`"),
+    .modelled "Tins.Wire.Raw.Wifi.country (ptr, end as offsets)" "" "Tins.Wire.Raw.Wifi.country_eq (= Tagged.decodeCountry, which harness/wire_wifi.h compares with the typed getter; Props.C01.raw_decoders_safe_wifi)" [rk% "Dot11ManagementFrame::country_params::from_option(const Tins::Dot11::option &) | guard | opt.data_size() < country_params::minimum_size", rk% "Dot11ManagementFrame::country_params::from_option(const Tins::Dot11::option &) | guard | end - ptr >= 3", rk% "Dot11ManagementFrame::country_params::from_option(const Tins::Dot11::option &) | guard | ptr != end && !only_padding_left"]),
   (rk% "Dot11ManagementFrame::country_params::from_option(const Tins::Dot11::option &) | ptrArith | ptr += output.country.size()",
-    .unmodelled "Tins.Wire.Wifi.Tagged.decodeCountry / triplesOf is a total function over the option's byte list (byteAt / drop / structural recursion), not a fault-explicit pointer walk; tie: typed-getter sweep of harness/wire_wifi.h under ASan; why it does not fault: copy of 3 bytes after data_size >= 6 (minimum_size), then triplets inside `end - ptr >= 3`"),
+    .modelled "Tins.Wire.Raw.Wifi.country (ptr, end as offsets)" "" "Tins.Wire.Raw.Wifi.country_eq (= Tagged.decodeCountry, which harness/wire_wifi.h compares with the typed getter; Props.C01.raw_decoders_safe_wifi)" [rk% "Dot11ManagementFrame::country_params::from_option(const Tins::Dot11::option &) | guard | opt.data_size() < country_params::minimum_size", rk% "Dot11ManagementFrame::country_params::from_option(const Tins::Dot11::option &) | guard | end - ptr >= 3", rk% "Dot11ManagementFrame::country_params::from_option(const Tins::Dot11::option &) | guard | ptr != end && !only_padding_left"]),
   (rk% "Dot11ManagementFrame::country_params::from_option(const Tins::Dot11::option &) | stdCopy | copy(ptr, ptr + 3, back_inserter(output.country))",
-    .unmodelled "Tins.Wire.Wifi.Tagged.decodeCountry / triplesOf is a total function over the option's byte list (byteAt / drop / structural recursion), not a fault-explicit pointer walk; tie: typed-getter sweep of harness/wire_wifi.h under ASan; why it does not fault: copy of 3 bytes after data_size >= 6 (minimum_size), then triplets inside `end - ptr >= 3`"),
+    .modelled "Tins.Wire.Raw.Wifi.country" "country_params::from_option copy(ptr, ptr + 3, back_inserter(output.country))" "Tins.Wire.Raw.Wifi.country_eq (= Tagged.decodeCountry, which harness/wire_wifi.h compares with the typed getter; Props.C01.raw_decoders_safe_wifi)" [rk% "Dot11ManagementFrame::country_params::from_option(const Tins::Dot11::option &) | guard | opt.data_size() < country_params::minimum_size", rk% "Dot11ManagementFrame::country_params::from_option(const Tins::Dot11::option &) | guard | end - ptr >= 3", rk% "Dot11ManagementFrame::country_params::from_option(const Tins::Dot11::option &) | guard | ptr != end && !only_padding_left"]),
   -- Dot11ManagementFrame::fh_pattern_type::from_option(const Tins::Dot11::option &)
   (rk% "Dot11ManagementFrame::fh_pattern_type::from_option(const Tins::Dot11::option &) | deref | *(ptr++) | x4",
-    .unmodelled "Tins.Wire.Wifi.Tagged.decodeFhPattern is a total function over the option's byte list (byteAt / drop / structural recursion), not a fault-explicit pointer walk; tie: typed-getter sweep of harness/wire_wifi.h under ASan; why it does not fault: four reads after data_size >= 4, then assign(ptr, end)"),
+    .modelled "Tins.Wire.Raw.Wifi.fhPattern" "fh_pattern_type::from_option *(ptr++)" "Tins.Wire.Raw.Wifi.fhPattern_eq (= Tagged.decodeFhPattern, which harness/wire_wifi.h compares with the typed getter; Props.C01.raw_decoders_safe_wifi)" [rk% "Dot11ManagementFrame::fh_pattern_type::from_option(const Tins::Dot11::option &) | guard | opt.data_size() < fh_pattern_type::minimum_size"]),
   (rk% "Dot11ManagementFrame::fh_pattern_type::from_option(const Tins::Dot11::option &) | externCall | output.random_table.assign(ptr, end)",
-    .unmodelled "Tins.Wire.Wifi.Tagged.decodeFhPattern is a total function over the option's byte list (byteAt / drop / structural recursion), not a fault-explicit pointer walk; tie: typed-getter sweep of harness/wire_wifi.h under ASan; why it does not fault: four reads after data_size >= 4, then assign(ptr, end)"),
+    .modelled "Tins.Wire.Raw.Wifi.fhPattern" "fh_pattern_type::from_option random_table.assign(ptr, end)" "Tins.Wire.Raw.Wifi.fhPattern_eq (= Tagged.decodeFhPattern, which harness/wire_wifi.h compares with the typed getter; Props.C01.raw_decoders_safe_wifi)" [rk% "Dot11ManagementFrame::fh_pattern_type::from_option(const Tins::Dot11::option &) | guard | opt.data_size() < fh_pattern_type::minimum_size"]),
   (rk% "Dot11ManagementFrame::fh_pattern_type::from_option(const Tins::Dot11::option &) | ptrArith | ptr + opt.data_size()",
-    .unmodelled "Tins.Wire.Wifi.Tagged.decodeFhPattern is a total function over the option's byte list (byteAt / drop / structural recursion), not a fault-explicit pointer walk; tie: typed-getter sweep of harness/wire_wifi.h under ASan; why it does not fault: four reads after data_size >= 4, then assign(ptr, end)"),
+    .modelled "Tins.Wire.Raw.Wifi.fhPattern (end as an offset)" "" "Tins.Wire.Raw.Wifi.fhPattern_eq (= Tagged.decodeFhPattern, which harness/wire_wifi.h compares with the typed getter; Props.C01.raw_decoders_safe_wifi)" [rk% "Dot11ManagementFrame::fh_pattern_type::from_option(const Tins::Dot11::option &) | guard | opt.data_size() < fh_pattern_type::minimum_size"]),
   -- Dot11ManagementFrame::ibss_dfs_params::from_option(const Tins::Dot11::option &)
   (rk% "Dot11ManagementFrame::ibss_dfs_params::from_option(const Tins::Dot11::option &) | deref | *(ptr++) | x3",
-    .unmodelled "Tins.Wire.Wifi.Tagged.decodeIbssDfs / dfsPairs is a total function over the option's byte list (byteAt / drop / structural recursion), not a fault-explicit pointer walk; tie: typed-getter sweep of harness/wire_wifi.h under ASan; why it does not fault: 6-byte address + 1 read after data_size >= 9 (minimum_size), then pairs inside `ptr != end` with `ptr == end` → throw between the two reads"),
+    .modelled "Tins.Wire.Raw.Wifi.ibssDfs / dfsLoop" "ibss_dfs_params::from_option *(ptr++)" "Tins.Wire.Raw.Wifi.ibssDfs_eq (= Tagged.decodeIbssDfs, which harness/wire_wifi.h compares with the typed getter; Props.C01.raw_decoders_safe_wifi)" [rk% "Dot11ManagementFrame::ibss_dfs_params::from_option(const Tins::Dot11::option &) | guard | opt.data_size() < ibss_dfs_params::minimum_size", rk% "Dot11ManagementFrame::ibss_dfs_params::from_option(const Tins::Dot11::option &) | guard | ptr != end", rk% "Dot11ManagementFrame::ibss_dfs_params::from_option(const Tins::Dot11::option &) | guard | ptr == end"]),
   (rk% "Dot11ManagementFrame::ibss_dfs_params::from_option(const Tins::Dot11::option &) | ptrArith | ptr + opt.data_size()",
-    .unmodelled "Tins.Wire.Wifi.Tagged.decodeIbssDfs / dfsPairs is a total function over the option's byte list (byteAt / drop / structural recursion), not a fault-explicit pointer walk; tie: typed-getter sweep of harness/wire_wifi.h under ASan; why it does not fault: 6-byte address + 1 read after data_size >= 9 (minimum_size), then pairs inside `ptr != end` with `ptr == end` → throw between the two reads"),
+    .modelled "Tins.Wire.Raw.Wifi.ibssDfs (ptr, end as offsets)" "" "Tins.Wire.Raw.Wifi.ibssDfs_eq (= Tagged.decodeIbssDfs, which harness/wire_wifi.h compares with the typed getter; Props.C01.raw_decoders_safe_wifi)" [rk% "Dot11ManagementFrame::ibss_dfs_params::from_option(const Tins::Dot11::option &) | guard | opt.data_size() < ibss_dfs_params::minimum_size", rk% "Dot11ManagementFrame::ibss_dfs_params::from_option(const Tins::Dot11::option &) | guard | ptr != end", rk% "Dot11ManagementFrame::ibss_dfs_params::from_option(const Tins::Dot11::option &) | guard | ptr == end"]),
   (rk% "Dot11ManagementFrame::ibss_dfs_params::from_option(const Tins::Dot11::option &) | ptrArith | ptr += output.dfs_owner.size()",
-    .unmodelled "Tins.Wire.Wifi.Tagged.decodeIbssDfs / dfsPairs is a total function over the option's byte list (byteAt / drop / structural recursion), not a fault-explicit pointer walk; tie: typed-getter sweep of harness/wire_wifi.h under ASan; why it does not fault: 6-byte address + 1 read after data_size >= 9 (minimum_size), then pairs inside `ptr != end` with `ptr == end` → throw between the two reads"),
+    .modelled "Tins.Wire.Raw.Wifi.ibssDfs (ptr, end as offsets)" "" "Tins.Wire.Raw.Wifi.ibssDfs_eq (= Tagged.decodeIbssDfs, which harness/wire_wifi.h compares with the typed getter; Props.C01.raw_decoders_safe_wifi)" [rk% "Dot11ManagementFrame::ibss_dfs_params::from_option(const Tins::Dot11::option &) | guard | opt.data_size() < ibss_dfs_params::minimum_size", rk% "Dot11ManagementFrame::ibss_dfs_params::from_option(const Tins::Dot11::option &) | guard | ptr != end", rk% "Dot11ManagementFrame::ibss_dfs_params::from_option(const Tins::Dot11::option &) | guard | ptr == end"]),
   (rk% "Dot11ManagementFrame::ibss_dfs_params::from_option(const Tins::Dot11::option &) | ptrPass | ptr",
-    .unmodelled "Tins.Wire.Wifi.Tagged.decodeIbssDfs / dfsPairs is a total function over the option's byte list (byteAt / drop / structural recursion), not a fault-explicit pointer walk; tie: typed-getter sweep of harness/wire_wifi.h under ASan; why it does not fault: 6-byte address + 1 read after data_size >= 9 (minimum_size), then pairs inside `ptr != end` with `ptr == end` → throw between the two reads"),
+    .modelled "Tins.Wire.Raw.Wifi.ibssDfs" "ibss_dfs_params::from_option dfs_owner = ptr" "Tins.Wire.Raw.Wifi.ibssDfs_eq (= Tagged.decodeIbssDfs, which harness/wire_wifi.h compares with the typed getter; Props.C01.raw_decoders_safe_wifi)" [rk% "Dot11ManagementFrame::ibss_dfs_params::from_option(const Tins::Dot11::option &) | guard | opt.data_size() < ibss_dfs_params::minimum_size", rk% "Dot11ManagementFrame::ibss_dfs_params::from_option(const Tins::Dot11::option &) | guard | ptr != end", rk% "Dot11ManagementFrame::ibss_dfs_params::from_option(const Tins::Dot11::option &) | guard | ptr == end"]),
   -- Dot11ManagementFrame::tim_type::from_option(const Tins::Dot11::option &)
   (rk% "Dot11ManagementFrame::tim_type::from_option(const Tins::Dot11::option &) | deref | *(ptr++) | x3",
-    .unmodelled "Tins.Wire.Wifi.Tagged.decodeTim is a total function over the option's byte list (byteAt / drop / structural recursion), not a fault-explicit pointer walk; tie: typed-getter sweep of harness/wire_wifi.h under ASan; why it does not fault: three reads after data_size >= 4, then assign(ptr, end)"),
+    .modelled "Tins.Wire.Raw.Wifi.tim" "tim_type::from_option *(ptr++)" "Tins.Wire.Raw.Wifi.tim_eq (= Tagged.decodeTim, which harness/wire_wifi.h compares with the typed getter; Props.C01.raw_decoders_safe_wifi)" [rk% "Dot11ManagementFrame::tim_type::from_option(const Tins::Dot11::option &) | guard | opt.data_size() < 4 * sizeof(uint8_t)"]),
   (rk% "Dot11ManagementFrame::tim_type::from_option(const Tins::Dot11::option &) | externCall | output.partial_virtual_bitmap.assign(ptr, end)",
-    .unmodelled "Tins.Wire.Wifi.Tagged.decodeTim is a total function over the option's byte list (byteAt / drop / structural recursion), not a fault-explicit pointer walk; tie: typed-getter sweep of harness/wire_wifi.h under ASan; why it does not fault: three reads after data_size >= 4, then assign(ptr, end)"),
+    .modelled "Tins.Wire.Raw.Wifi.tim" "tim_type::from_option partial_virtual_bitmap.assign(ptr, end)" "Tins.Wire.Raw.Wifi.tim_eq (= Tagged.decodeTim, which harness/wire_wifi.h compares with the typed getter; Props.C01.raw_decoders_safe_wifi)" [rk% "Dot11ManagementFrame::tim_type::from_option(const Tins::Dot11::option &) | guard | opt.data_size() < 4 * sizeof(uint8_t)"]),
   (rk% "Dot11ManagementFrame::tim_type::from_option(const Tins::Dot11::option &) | ptrArith | ptr + opt.data_size()",
-    .unmodelled "Tins.Wire.Wifi.Tagged.decodeTim is a total function over the option's byte list (byteAt / drop / structural recursion), not a fault-explicit pointer walk; tie: typed-getter sweep of harness/wire_wifi.h under ASan; why it does not fault: three reads after data_size >= 4, then assign(ptr, end)"),
+    .modelled "Tins.Wire.Raw.Wifi.tim (end as an offset)" "" "Tins.Wire.Raw.Wifi.tim_eq (= Tagged.decodeTim, which harness/wire_wifi.h compares with the typed getter; Props.C01.raw_decoders_safe_wifi)" [rk% "Dot11ManagementFrame::tim_type::from_option(const Tins::Dot11::option &) | guard | opt.data_size() < 4 * sizeof(uint8_t)"]),
   -- Dot11ManagementFrame::vendor_specific_type::from_bytes(const uint8_t *, uint32_t)
   (rk% "Dot11ManagementFrame::vendor_specific_type::from_bytes(const uint8_t *, uint32_t) | externCall | byte_array(buffer + 3, buffer + sz)",
-    .unmodelled "Tins.Wire.Wifi.Tagged.decodeVendor is a total function over the option's byte list (byteAt / drop / structural recursion), not a fault-explicit pointer walk; tie: typed-getter sweep of harness/wire_wifi.h under ASan; why it does not fault: HWAddress<3>(buffer) reads 3 bytes and byte_array(buffer + 3, buffer + sz) the rest, after sz >= 3"),
+    .modelled "Tins.Wire.Raw.Wifi.vendorFromBytes" "vendor_specific_type::from_bytes byte_array(buffer + 3, buffer + sz)" "Tins.Wire.Raw.Wifi.vendorFromBytes_noFault (and vendorSpecific_eq: = Tagged.decodeVendor for the getter vendor_specific(); Props.C01.raw_decoders_safe_wifi)" [rk% "Dot11ManagementFrame::vendor_specific_type::from_bytes(const uint8_t *, uint32_t) | guard | sz < 3"]),
   (rk% "Dot11ManagementFrame::vendor_specific_type::from_bytes(const uint8_t *, uint32_t) | ptrPass | buffer",
-    .unmodelled "Tins.Wire.Wifi.Tagged.decodeVendor is a total function over the option's byte list (byteAt / drop / structural recursion), not a fault-explicit pointer walk; tie: typed-getter sweep of harness/wire_wifi.h under ASan; why it does not fault: HWAddress<3>(buffer) reads 3 bytes and byte_array(buffer + 3, buffer + sz) the rest, after sz >= 3"),
+    .modelled "Tins.Wire.Raw.Wifi.vendorFromBytes" "vendor_specific_type::from_bytes oui_type(buffer)" "Tins.Wire.Raw.Wifi.vendorFromBytes_noFault (and vendorSpecific_eq: = Tagged.decodeVendor for the getter vendor_specific(); Props.C01.raw_decoders_safe_wifi)" [rk% "Dot11ManagementFrame::vendor_specific_type::from_bytes(const uint8_t *, uint32_t) | guard | sz < 3"]),
   -- EAPOL::extract_metadata(const uint8_t *, uint32_t)
   (rk% "EAPOL::extract_metadata(const uint8_t *, uint32_t) | arrow | header->length",
-    .unmodelled "no Lean model of this function (Coverage: harnessOnly): reads header->length (offset 2, 2 bytes) through the cast after `total_sz < sizeof(eapol_header)` was excluded; driven by harness/c01_entry.cpp at every length 0..40"),
+    .modelled "Tins.Wire.Raw.Misc.eapolMetadata" "EAPOL::extract_metadata header->length" "Tins.Wire.Raw.Misc.eapolMetadata_safe (Props.C01.raw_decoders_safe_misc; sizes / offsets = Gen.Layout: metadata_layout; tie: `entry-raw-model` clause of Driver/C01.lean on harness/c01_entry.cpp)" [rk% "EAPOL::extract_metadata(const uint8_t *, uint32_t) | guard | TINS_UNLIKELY(total_sz < sizeof(eapol_header))"]),
   (rk% "EAPOL::extract_metadata(const uint8_t *, uint32_t) | castToStruct | (const eapol_header*)buffer",
-    .unmodelled "no Lean model of this function (Coverage: harnessOnly): reads header->length (offset 2, 2 bytes) through the cast after `total_sz < sizeof(eapol_header)` was excluded; driven by harness/c01_entry.cpp at every length 0..40"),
+    .modelled "Tins.Wire.Raw.Misc.eapolMetadata (the cast reads nothing; the read through it is the arrow row)" "" "Tins.Wire.Raw.Misc.eapolMetadata_safe (Props.C01.raw_decoders_safe_misc; sizes / offsets = Gen.Layout: metadata_layout; tie: `entry-raw-model` clause of Driver/C01.lean on harness/c01_entry.cpp)" [rk% "EAPOL::extract_metadata(const uint8_t *, uint32_t) | guard | TINS_UNLIKELY(total_sz < sizeof(eapol_header))"]),
   -- EAPOL::from_bytes(const uint8_t *, uint32_t)
   (rk% "EAPOL::from_bytes(const uint8_t *, uint32_t) | arrow | ptr->length",
     .modelled "Tins.Wire.Wifi.Eapol.fromBytes" "EAPOL::from_bytes ptr->length/type" "Tins.Wire.Wifi.Eapol.eapol_fromBytes_safe" [rk% "EAPOL::from_bytes(const uint8_t *, uint32_t) | guard | TINS_UNLIKELY(total_sz < sizeof(eapol_header))"]),
@@ -184,9 +185,9 @@ def table : List (Key × Disposition) := [
     .modelled "Tins.Wire.Wifi.Eapol.fromBytes (total_sz = min(total_sz, advertised length + 4): only ever decreased)" "" "Tins.Wire.Wifi.Eapol.eapol_fromBytes_safe" [rk% "EAPOL::from_bytes(const uint8_t *, uint32_t) | guard | (total_sz < data_len)"]),
   -- EthernetII::extract_metadata(const uint8_t *, uint32_t)
   (rk% "EthernetII::extract_metadata(const uint8_t *, uint32_t) | arrow | header->payload_type",
-    .unmodelled "no Lean model of this function (Coverage: harnessOnly): reads header->payload_type (offset 12, 2 bytes) through the cast after `total_sz < sizeof(ethernet_header)` (14) was excluded; driven by harness/c01_entry.cpp at every length 0..40"),
+    .modelled "Tins.Wire.Raw.Misc.ethMetadata" "EthernetII::extract_metadata header->payload_type" "Tins.Wire.Raw.Misc.ethMetadata_safe (Props.C01.raw_decoders_safe_misc; sizes / offsets = Gen.Layout: metadata_layout; tie: `entry-raw-model` clause of Driver/C01.lean on harness/c01_entry.cpp)" [rk% "EthernetII::extract_metadata(const uint8_t *, uint32_t) | guard | TINS_UNLIKELY(total_sz < sizeof(ethernet_header))"]),
   (rk% "EthernetII::extract_metadata(const uint8_t *, uint32_t) | castToStruct | (const ethernet_header*)buffer",
-    .unmodelled "no Lean model of this function (Coverage: harnessOnly): reads header->payload_type (offset 12, 2 bytes) through the cast after `total_sz < sizeof(ethernet_header)` (14) was excluded; driven by harness/c01_entry.cpp at every length 0..40"),
+    .modelled "Tins.Wire.Raw.Misc.ethMetadata (the cast reads nothing; the reads through it are the arrow rows)" "" "Tins.Wire.Raw.Misc.ethMetadata_safe (Props.C01.raw_decoders_safe_misc; sizes / offsets = Gen.Layout: metadata_layout; tie: `entry-raw-model` clause of Driver/C01.lean on harness/c01_entry.cpp)" [rk% "EthernetII::extract_metadata(const uint8_t *, uint32_t) | guard | TINS_UNLIKELY(total_sz < sizeof(ethernet_header))"]),
   -- HWAddress::HWAddress(const Tins::HWAddress::storage_type *)
   (rk% "HWAddress::HWAddress(const Tins::HWAddress::storage_type *) | memcpy | std::memcpy(buffer_, ptr, address_size)",
     .argued "reads address_size (n) bytes from the pointer it is given: every caller on the parse path is a row of its own (InputMemoryStream::read(HWAddress<6>&) after can_read(6), Converters::convert<HWAddress<6>> after data_size == 6, ibss_dfs_params::from_option after data_size >= 9); a null pointer takes the memset branch" [rk% "HWAddress::HWAddress(const Tins::HWAddress::storage_type *) | guard | ptr"]),
@@ -207,67 +208,67 @@ def table : List (Key × Disposition) := [
     .argued "stream.read(void*, 6) into the 6-byte member `reserved`: the source side is InputMemoryStream::read (can_read), the destination is the object's own array" []),
   -- ICMPv6::dns_search_list_type::from_option(const Tins::ICMPv6::option &)
   (rk% "ICMPv6::dns_search_list_type::from_option(const Tins::ICMPv6::option &) | deref | *ptr | x6",
-    .unmodelled "Tins.Wire.Icmp.Icmp6.decDnsSearch / dnsDomains / dnsLabels is a total function over the option's byte list (byteAt / take / drop), not a fault-explicit read; tie: typed-getter sweep of harness/wire_icmp.h under ASan on an exact-size option buffer (options of at most 8 bytes live in the object's small buffer, where a short over-read is not seen); why it does not fault: memcpy of bytes 2..5 after data_size >= 6; every *ptr of the two loops is behind `ptr < end &&`, every label copy behind `*ptr < (end - ptr)`"),
+    .modelled "Tins.Wire.Raw.Icmp6.labelsLoop / domainsLoop" "dns_search_list_type::from_option *ptr" "Tins.Wire.Raw.Icmp6.dnsSearch_eq (= ok of Icmp6.decDnsSearch, which harness/wire_icmp.h compares with the typed getter; Props.C01.raw_decoders_safe_icmp6)" [rk% "ICMPv6::dns_search_list_type::from_option(const Tins::ICMPv6::option &) | guard | opt.data_size() < 2 + sizeof(uint32_t)", rk% "ICMPv6::dns_search_list_type::from_option(const Tins::ICMPv6::option &) | guard | ptr < end && *ptr", rk% "ICMPv6::dns_search_list_type::from_option(const Tins::ICMPv6::option &) | guard | ptr < end && *ptr && *ptr < (end - ptr)", rk% "ICMPv6::dns_search_list_type::from_option(const Tins::ICMPv6::option &) | guard | ptr < end && *ptr != 0"]),
   (rk% "ICMPv6::dns_search_list_type::from_option(const Tins::ICMPv6::option &) | externCall | domain.insert(domain.end(), ptr + 1, ptr + *ptr + 1)",
-    .unmodelled "Tins.Wire.Icmp.Icmp6.decDnsSearch / dnsDomains / dnsLabels is a total function over the option's byte list (byteAt / take / drop), not a fault-explicit read; tie: typed-getter sweep of harness/wire_icmp.h under ASan on an exact-size option buffer (options of at most 8 bytes live in the object's small buffer, where a short over-read is not seen); why it does not fault: memcpy of bytes 2..5 after data_size >= 6; every *ptr of the two loops is behind `ptr < end &&`, every label copy behind `*ptr < (end - ptr)`"),
+    .modelled "Tins.Wire.Raw.Icmp6.labelsLoop" "dns_search_list_type::from_option domain.insert(domain.end(), ptr + 1, ptr + *ptr + 1)" "Tins.Wire.Raw.Icmp6.dnsSearch_eq (= ok of Icmp6.decDnsSearch, which harness/wire_icmp.h compares with the typed getter; Props.C01.raw_decoders_safe_icmp6)" [rk% "ICMPv6::dns_search_list_type::from_option(const Tins::ICMPv6::option &) | guard | opt.data_size() < 2 + sizeof(uint32_t)", rk% "ICMPv6::dns_search_list_type::from_option(const Tins::ICMPv6::option &) | guard | ptr < end && *ptr", rk% "ICMPv6::dns_search_list_type::from_option(const Tins::ICMPv6::option &) | guard | ptr < end && *ptr && *ptr < (end - ptr)", rk% "ICMPv6::dns_search_list_type::from_option(const Tins::ICMPv6::option &) | guard | ptr < end && *ptr != 0"]),
   (rk% "ICMPv6::dns_search_list_type::from_option(const Tins::ICMPv6::option &) | memcpy | memcpy(&output.lifetime, ptr + 2, sizeof(uint32_t))",
-    .unmodelled "Tins.Wire.Icmp.Icmp6.decDnsSearch / dnsDomains / dnsLabels is a total function over the option's byte list (byteAt / take / drop), not a fault-explicit read; tie: typed-getter sweep of harness/wire_icmp.h under ASan on an exact-size option buffer (options of at most 8 bytes live in the object's small buffer, where a short over-read is not seen); why it does not fault: memcpy of bytes 2..5 after data_size >= 6; every *ptr of the two loops is behind `ptr < end &&`, every label copy behind `*ptr < (end - ptr)`"),
+    .modelled "Tins.Wire.Raw.Icmp6.dnsSearch" "dns_search_list_type::from_option memcpy(&output.lifetime, ptr + 2, sizeof(uint32_t))" "Tins.Wire.Raw.Icmp6.dnsSearch_eq (= ok of Icmp6.decDnsSearch, which harness/wire_icmp.h compares with the typed getter; Props.C01.raw_decoders_safe_icmp6)" [rk% "ICMPv6::dns_search_list_type::from_option(const Tins::ICMPv6::option &) | guard | opt.data_size() < 2 + sizeof(uint32_t)", rk% "ICMPv6::dns_search_list_type::from_option(const Tins::ICMPv6::option &) | guard | ptr < end && *ptr", rk% "ICMPv6::dns_search_list_type::from_option(const Tins::ICMPv6::option &) | guard | ptr < end && *ptr && *ptr < (end - ptr)", rk% "ICMPv6::dns_search_list_type::from_option(const Tins::ICMPv6::option &) | guard | ptr < end && *ptr != 0"]),
   (rk% "ICMPv6::dns_search_list_type::from_option(const Tins::ICMPv6::option &) | ptrArith | ptr + opt.data_size()",
-    .unmodelled "Tins.Wire.Icmp.Icmp6.decDnsSearch / dnsDomains / dnsLabels is a total function over the option's byte list (byteAt / take / drop), not a fault-explicit read; tie: typed-getter sweep of harness/wire_icmp.h under ASan on an exact-size option buffer (options of at most 8 bytes live in the object's small buffer, where a short over-read is not seen); why it does not fault: memcpy of bytes 2..5 after data_size >= 6; every *ptr of the two loops is behind `ptr < end &&`, every label copy behind `*ptr < (end - ptr)`"),
+    .modelled "Tins.Wire.Raw.Icmp6.dnsSearch / labelsLoop / domainsLoop (ptr, end as offsets: advanced and compared; read only by the rows above)" "" "Tins.Wire.Raw.Icmp6.dnsSearch_eq (= ok of Icmp6.decDnsSearch, which harness/wire_icmp.h compares with the typed getter; Props.C01.raw_decoders_safe_icmp6)" [rk% "ICMPv6::dns_search_list_type::from_option(const Tins::ICMPv6::option &) | guard | opt.data_size() < 2 + sizeof(uint32_t)", rk% "ICMPv6::dns_search_list_type::from_option(const Tins::ICMPv6::option &) | guard | ptr < end && *ptr", rk% "ICMPv6::dns_search_list_type::from_option(const Tins::ICMPv6::option &) | guard | ptr < end && *ptr && *ptr < (end - ptr)", rk% "ICMPv6::dns_search_list_type::from_option(const Tins::ICMPv6::option &) | guard | ptr < end && *ptr != 0"]),
   (rk% "ICMPv6::dns_search_list_type::from_option(const Tins::ICMPv6::option &) | ptrArith | ptr += *ptr + 1",
-    .unmodelled "Tins.Wire.Icmp.Icmp6.decDnsSearch / dnsDomains / dnsLabels is a total function over the option's byte list (byteAt / take / drop), not a fault-explicit read; tie: typed-getter sweep of harness/wire_icmp.h under ASan on an exact-size option buffer (options of at most 8 bytes live in the object's small buffer, where a short over-read is not seen); why it does not fault: memcpy of bytes 2..5 after data_size >= 6; every *ptr of the two loops is behind `ptr < end &&`, every label copy behind `*ptr < (end - ptr)`"),
+    .modelled "Tins.Wire.Raw.Icmp6.dnsSearch / labelsLoop / domainsLoop (ptr, end as offsets: advanced and compared; read only by the rows above)" "" "Tins.Wire.Raw.Icmp6.dnsSearch_eq (= ok of Icmp6.decDnsSearch, which harness/wire_icmp.h compares with the typed getter; Props.C01.raw_decoders_safe_icmp6)" [rk% "ICMPv6::dns_search_list_type::from_option(const Tins::ICMPv6::option &) | guard | opt.data_size() < 2 + sizeof(uint32_t)", rk% "ICMPv6::dns_search_list_type::from_option(const Tins::ICMPv6::option &) | guard | ptr < end && *ptr", rk% "ICMPv6::dns_search_list_type::from_option(const Tins::ICMPv6::option &) | guard | ptr < end && *ptr && *ptr < (end - ptr)", rk% "ICMPv6::dns_search_list_type::from_option(const Tins::ICMPv6::option &) | guard | ptr < end && *ptr != 0"]),
   (rk% "ICMPv6::dns_search_list_type::from_option(const Tins::ICMPv6::option &) | ptrArith | ptr += 2 + sizeof(uint32_t)",
-    .unmodelled "Tins.Wire.Icmp.Icmp6.decDnsSearch / dnsDomains / dnsLabels is a total function over the option's byte list (byteAt / take / drop), not a fault-explicit read; tie: typed-getter sweep of harness/wire_icmp.h under ASan on an exact-size option buffer (options of at most 8 bytes live in the object's small buffer, where a short over-read is not seen); why it does not fault: memcpy of bytes 2..5 after data_size >= 6; every *ptr of the two loops is behind `ptr < end &&`, every label copy behind `*ptr < (end - ptr)`"),
+    .modelled "Tins.Wire.Raw.Icmp6.dnsSearch / labelsLoop / domainsLoop (ptr, end as offsets: advanced and compared; read only by the rows above)" "" "Tins.Wire.Raw.Icmp6.dnsSearch_eq (= ok of Icmp6.decDnsSearch, which harness/wire_icmp.h compares with the typed getter; Props.C01.raw_decoders_safe_icmp6)" [rk% "ICMPv6::dns_search_list_type::from_option(const Tins::ICMPv6::option &) | guard | opt.data_size() < 2 + sizeof(uint32_t)", rk% "ICMPv6::dns_search_list_type::from_option(const Tins::ICMPv6::option &) | guard | ptr < end && *ptr", rk% "ICMPv6::dns_search_list_type::from_option(const Tins::ICMPv6::option &) | guard | ptr < end && *ptr && *ptr < (end - ptr)", rk% "ICMPv6::dns_search_list_type::from_option(const Tins::ICMPv6::option &) | guard | ptr < end && *ptr != 0"]),
   (rk% "ICMPv6::dns_search_list_type::from_option(const Tins::ICMPv6::option &) | ptrArith | ptr++",
-    .unmodelled "Tins.Wire.Icmp.Icmp6.decDnsSearch / dnsDomains / dnsLabels is a total function over the option's byte list (byteAt / take / drop), not a fault-explicit read; tie: typed-getter sweep of harness/wire_icmp.h under ASan on an exact-size option buffer (options of at most 8 bytes live in the object's small buffer, where a short over-read is not seen); why it does not fault: memcpy of bytes 2..5 after data_size >= 6; every *ptr of the two loops is behind `ptr < end &&`, every label copy behind `*ptr < (end - ptr)`"),
+    .modelled "Tins.Wire.Raw.Icmp6.dnsSearch / labelsLoop / domainsLoop (ptr, end as offsets: advanced and compared; read only by the rows above)" "" "Tins.Wire.Raw.Icmp6.dnsSearch_eq (= ok of Icmp6.decDnsSearch, which harness/wire_icmp.h compares with the typed getter; Props.C01.raw_decoders_safe_icmp6)" [rk% "ICMPv6::dns_search_list_type::from_option(const Tins::ICMPv6::option &) | guard | opt.data_size() < 2 + sizeof(uint32_t)", rk% "ICMPv6::dns_search_list_type::from_option(const Tins::ICMPv6::option &) | guard | ptr < end && *ptr", rk% "ICMPv6::dns_search_list_type::from_option(const Tins::ICMPv6::option &) | guard | ptr < end && *ptr && *ptr < (end - ptr)", rk% "ICMPv6::dns_search_list_type::from_option(const Tins::ICMPv6::option &) | guard | ptr < end && *ptr != 0"]),
   -- ICMPv6::handover_assist_info_type::from_option(const Tins::ICMPv6::option &)
   (rk% "ICMPv6::handover_assist_info_type::from_option(const Tins::ICMPv6::option &) | deref | * ptr",
-    .unmodelled "Tins.Wire.Icmp.Icmp6.decCodeLen is a total function over the option's byte list (byteAt / take / drop), not a fault-explicit read; tie: typed-getter sweep of harness/wire_icmp.h under ASan on an exact-size option buffer (options of at most 8 bytes live in the object's small buffer, where a short over-read is not seen); why it does not fault: reads byte 0, then *ptr (byte 1) after data_size >= 2, and assigns [2, 2 + len) after (end - ptr - 1) < *ptr was excluded"),
+    .modelled "Tins.Wire.Raw.Icmp6.codeLen" "handover_assist_info_type::from_option *ptr" "Tins.Wire.Raw.Icmp6.codeLen_eq (= ok of Icmp6.decCodeLen, which harness/wire_icmp.h compares with the typed getter; Props.C01.raw_decoders_safe_icmp6)" [rk% "ICMPv6::handover_assist_info_type::from_option(const Tins::ICMPv6::option &) | guard | opt.data_size() < 2", rk% "ICMPv6::handover_assist_info_type::from_option(const Tins::ICMPv6::option &) | guard | (end - ptr - 1) <* ptr"]),
   (rk% "ICMPv6::handover_assist_info_type::from_option(const Tins::ICMPv6::option &) | deref | *ptr",
-    .unmodelled "Tins.Wire.Icmp.Icmp6.decCodeLen is a total function over the option's byte list (byteAt / take / drop), not a fault-explicit read; tie: typed-getter sweep of harness/wire_icmp.h under ASan on an exact-size option buffer (options of at most 8 bytes live in the object's small buffer, where a short over-read is not seen); why it does not fault: reads byte 0, then *ptr (byte 1) after data_size >= 2, and assigns [2, 2 + len) after (end - ptr - 1) < *ptr was excluded"),
+    .modelled "Tins.Wire.Raw.Icmp6.codeLen" "handover_assist_info_type::from_option *ptr" "Tins.Wire.Raw.Icmp6.codeLen_eq (= ok of Icmp6.decCodeLen, which harness/wire_icmp.h compares with the typed getter; Props.C01.raw_decoders_safe_icmp6)" [rk% "ICMPv6::handover_assist_info_type::from_option(const Tins::ICMPv6::option &) | guard | opt.data_size() < 2", rk% "ICMPv6::handover_assist_info_type::from_option(const Tins::ICMPv6::option &) | guard | (end - ptr - 1) <* ptr"]),
   (rk% "ICMPv6::handover_assist_info_type::from_option(const Tins::ICMPv6::option &) | deref | *ptr++",
-    .unmodelled "Tins.Wire.Icmp.Icmp6.decCodeLen is a total function over the option's byte list (byteAt / take / drop), not a fault-explicit read; tie: typed-getter sweep of harness/wire_icmp.h under ASan on an exact-size option buffer (options of at most 8 bytes live in the object's small buffer, where a short over-read is not seen); why it does not fault: reads byte 0, then *ptr (byte 1) after data_size >= 2, and assigns [2, 2 + len) after (end - ptr - 1) < *ptr was excluded"),
+    .modelled "Tins.Wire.Raw.Icmp6.codeLen" "handover_assist_info_type::from_option *ptr++" "Tins.Wire.Raw.Icmp6.codeLen_eq (= ok of Icmp6.decCodeLen, which harness/wire_icmp.h compares with the typed getter; Props.C01.raw_decoders_safe_icmp6)" [rk% "ICMPv6::handover_assist_info_type::from_option(const Tins::ICMPv6::option &) | guard | opt.data_size() < 2", rk% "ICMPv6::handover_assist_info_type::from_option(const Tins::ICMPv6::option &) | guard | (end - ptr - 1) <* ptr"]),
   (rk% "ICMPv6::handover_assist_info_type::from_option(const Tins::ICMPv6::option &) | externCall | output.hai.assign(ptr + 1, ptr + 1 + *ptr)",
-    .unmodelled "Tins.Wire.Icmp.Icmp6.decCodeLen is a total function over the option's byte list (byteAt / take / drop), not a fault-explicit read; tie: typed-getter sweep of harness/wire_icmp.h under ASan on an exact-size option buffer (options of at most 8 bytes live in the object's small buffer, where a short over-read is not seen); why it does not fault: reads byte 0, then *ptr (byte 1) after data_size >= 2, and assigns [2, 2 + len) after (end - ptr - 1) < *ptr was excluded"),
+    .modelled "Tins.Wire.Raw.Icmp6.codeLen" "handover_assist_info_type::from_option hai.assign(ptr + 1, ptr + 1 + *ptr)" "Tins.Wire.Raw.Icmp6.codeLen_eq (= ok of Icmp6.decCodeLen, which harness/wire_icmp.h compares with the typed getter; Props.C01.raw_decoders_safe_icmp6)" [rk% "ICMPv6::handover_assist_info_type::from_option(const Tins::ICMPv6::option &) | guard | opt.data_size() < 2", rk% "ICMPv6::handover_assist_info_type::from_option(const Tins::ICMPv6::option &) | guard | (end - ptr - 1) <* ptr"]),
   (rk% "ICMPv6::handover_assist_info_type::from_option(const Tins::ICMPv6::option &) | ptrArith | ptr + opt.data_size()",
-    .unmodelled "Tins.Wire.Icmp.Icmp6.decCodeLen is a total function over the option's byte list (byteAt / take / drop), not a fault-explicit read; tie: typed-getter sweep of harness/wire_icmp.h under ASan on an exact-size option buffer (options of at most 8 bytes live in the object's small buffer, where a short over-read is not seen); why it does not fault: reads byte 0, then *ptr (byte 1) after data_size >= 2, and assigns [2, 2 + len) after (end - ptr - 1) < *ptr was excluded"),
+    .modelled "Tins.Wire.Raw.Icmp6.codeLen (end as an offset: compared only)" "" "Tins.Wire.Raw.Icmp6.codeLen_eq (= ok of Icmp6.decCodeLen, which harness/wire_icmp.h compares with the typed getter; Props.C01.raw_decoders_safe_icmp6)" [rk% "ICMPv6::handover_assist_info_type::from_option(const Tins::ICMPv6::option &) | guard | opt.data_size() < 2", rk% "ICMPv6::handover_assist_info_type::from_option(const Tins::ICMPv6::option &) | guard | (end - ptr - 1) <* ptr"]),
   -- ICMPv6::handover_key_reply_type::from_option(const Tins::ICMPv6::option &)
   (rk% "ICMPv6::handover_key_reply_type::from_option(const Tins::ICMPv6::option &) | deref | *opt.data_ptr() | x2",
-    .unmodelled "Tins.Wire.Icmp.Icmp6.decHandoverReply is a total function over the option's byte list (byteAt / take / drop), not a fault-explicit read; tie: typed-getter sweep of harness/wire_icmp.h under ASan on an exact-size option buffer (options of at most 8 bytes live in the object's small buffer, where a short over-read is not seen); why it does not fault: reads *opt.data_ptr() (byte 0) after data_size >= 6; the assign ends at pointer() + size() - pad with can_read(pad) checked"),
+    .modelled "Tins.Wire.Raw.Icmp6.handoverReply" "handover_key_reply_type::from_option *opt.data_ptr()" "Tins.Wire.Raw.Icmp6.handoverReply_eq (= ok of Icmp6.decHandoverReply, which harness/wire_icmp.h compares with the typed getter; Props.C01.raw_decoders_safe_icmp6)" [rk% "ICMPv6::handover_key_reply_type::from_option(const Tins::ICMPv6::option &) | guard | opt.data_size() < 2 + sizeof(uint32_t)", rk% "ICMPv6::handover_key_reply_type::from_option(const Tins::ICMPv6::option &) | guard | !stream.can_read(*opt.data_ptr())"]),
   (rk% "ICMPv6::handover_key_reply_type::from_option(const Tins::ICMPv6::option &) | externCall | output.key.assign(stream.pointer(), stream.pointer() + stream.size() - *opt.data_ptr())",
-    .unmodelled "Tins.Wire.Icmp.Icmp6.decHandoverReply is a total function over the option's byte list (byteAt / take / drop), not a fault-explicit read; tie: typed-getter sweep of harness/wire_icmp.h under ASan on an exact-size option buffer (options of at most 8 bytes live in the object's small buffer, where a short over-read is not seen); why it does not fault: reads *opt.data_ptr() (byte 0) after data_size >= 6; the assign ends at pointer() + size() - pad with can_read(pad) checked"),
+    .modelled "Tins.Wire.Raw.Icmp6.handoverReply" "handover_key_reply_type::from_option key.assign" "Tins.Wire.Raw.Icmp6.handoverReply_eq (= ok of Icmp6.decHandoverReply, which harness/wire_icmp.h compares with the typed getter; Props.C01.raw_decoders_safe_icmp6)" [rk% "ICMPv6::handover_key_reply_type::from_option(const Tins::ICMPv6::option &) | guard | opt.data_size() < 2 + sizeof(uint32_t)", rk% "ICMPv6::handover_key_reply_type::from_option(const Tins::ICMPv6::option &) | guard | !stream.can_read(*opt.data_ptr())"]),
   -- ICMPv6::handover_key_req_type::from_option(const Tins::ICMPv6::option &)
   (rk% "ICMPv6::handover_key_req_type::from_option(const Tins::ICMPv6::option &) | deref | *opt.data_ptr() | x2",
-    .unmodelled "Tins.Wire.Icmp.Icmp6.decHandoverReq is a total function over the option's byte list (byteAt / take / drop), not a fault-explicit read; tie: typed-getter sweep of harness/wire_icmp.h under ASan on an exact-size option buffer (options of at most 8 bytes live in the object's small buffer, where a short over-read is not seen); why it does not fault: reads *opt.data_ptr() (byte 0) after data_size >= 6; the assign ends at pointer() + size() - pad with can_read(pad) checked"),
+    .modelled "Tins.Wire.Raw.Icmp6.handoverReq" "handover_key_req_type::from_option *opt.data_ptr()" "Tins.Wire.Raw.Icmp6.handoverReq_eq (= ok of Icmp6.decHandoverReq, which harness/wire_icmp.h compares with the typed getter; Props.C01.raw_decoders_safe_icmp6)" [rk% "ICMPv6::handover_key_req_type::from_option(const Tins::ICMPv6::option &) | guard | opt.data_size() < 2 + sizeof(uint32_t)", rk% "ICMPv6::handover_key_req_type::from_option(const Tins::ICMPv6::option &) | guard | !stream.can_read(*opt.data_ptr())"]),
   (rk% "ICMPv6::handover_key_req_type::from_option(const Tins::ICMPv6::option &) | externCall | output.key.assign(stream.pointer(), stream.pointer() + stream.size() - *opt.data_ptr())",
-    .unmodelled "Tins.Wire.Icmp.Icmp6.decHandoverReq is a total function over the option's byte list (byteAt / take / drop), not a fault-explicit read; tie: typed-getter sweep of harness/wire_icmp.h under ASan on an exact-size option buffer (options of at most 8 bytes live in the object's small buffer, where a short over-read is not seen); why it does not fault: reads *opt.data_ptr() (byte 0) after data_size >= 6; the assign ends at pointer() + size() - pad with can_read(pad) checked"),
+    .modelled "Tins.Wire.Raw.Icmp6.handoverReq" "handover_key_req_type::from_option key.assign" "Tins.Wire.Raw.Icmp6.handoverReq_eq (= ok of Icmp6.decHandoverReq, which harness/wire_icmp.h compares with the typed getter; Props.C01.raw_decoders_safe_icmp6)" [rk% "ICMPv6::handover_key_req_type::from_option(const Tins::ICMPv6::option &) | guard | opt.data_size() < 2 + sizeof(uint32_t)", rk% "ICMPv6::handover_key_req_type::from_option(const Tins::ICMPv6::option &) | guard | !stream.can_read(*opt.data_ptr())"]),
   -- ICMPv6::lladdr_type::from_option(const Tins::ICMPv6::option &)
   (rk% "ICMPv6::lladdr_type::from_option(const Tins::ICMPv6::option &) | deref | *ptr++",
-    .unmodelled "Tins.Wire.Icmp.Icmp6.decLladdr is a total function over the option's byte list (byteAt / take / drop), not a fault-explicit read; tie: typed-getter sweep of harness/wire_icmp.h under ASan on an exact-size option buffer (options of at most 8 bytes live in the object's small buffer, where a short over-read is not seen); why it does not fault: reads byte 0 and assigns [1, data_size) after data_size >= 2"),
+    .modelled "Tins.Wire.Raw.Icmp6.lladdr" "lladdr_type::from_option *ptr++" "Tins.Wire.Raw.Icmp6.lladdr_eq (= ok of Icmp6.decLladdr, which harness/wire_icmp.h compares with the typed getter; Props.C01.raw_decoders_safe_icmp6)" [rk% "ICMPv6::lladdr_type::from_option(const Tins::ICMPv6::option &) | guard | opt.data_size() < 2"]),
   (rk% "ICMPv6::lladdr_type::from_option(const Tins::ICMPv6::option &) | externCall | output.address.assign(ptr, opt.data_ptr() + opt.data_size())",
-    .unmodelled "Tins.Wire.Icmp.Icmp6.decLladdr is a total function over the option's byte list (byteAt / take / drop), not a fault-explicit read; tie: typed-getter sweep of harness/wire_icmp.h under ASan on an exact-size option buffer (options of at most 8 bytes live in the object's small buffer, where a short over-read is not seen); why it does not fault: reads byte 0 and assigns [1, data_size) after data_size >= 2"),
+    .modelled "Tins.Wire.Raw.Icmp6.lladdr" "lladdr_type::from_option address.assign(ptr, opt.data_ptr() + opt.data_size())" "Tins.Wire.Raw.Icmp6.lladdr_eq (= ok of Icmp6.decLladdr, which harness/wire_icmp.h compares with the typed getter; Props.C01.raw_decoders_safe_icmp6)" [rk% "ICMPv6::lladdr_type::from_option(const Tins::ICMPv6::option &) | guard | opt.data_size() < 2"]),
   -- ICMPv6::map_type::from_option(const Tins::ICMPv6::option &)
   (rk% "ICMPv6::map_type::from_option(const Tins::ICMPv6::option &) | deref | *stream.pointer()",
     .argued "`*stream.pointer()` peeks the byte the next statement reads with stream.read<uint8_t>() (which checks can_read(1)); the option holds exactly 30 / 22 bytes and at most one byte was consumed; Lean side Tins.Wire.Icmp.Icmp6.decMap is total (byteAt), not fault-explicit" [rk% "ICMPv6::map_type::from_option(const Tins::ICMPv6::option &) | guard | opt.data_size() != 2 + sizeof(uint32_t) + ipaddress_type::address_size"]),
   -- ICMPv6::mobile_node_id_type::from_option(const Tins::ICMPv6::option &)
   (rk% "ICMPv6::mobile_node_id_type::from_option(const Tins::ICMPv6::option &) | deref | * ptr",
-    .unmodelled "Tins.Wire.Icmp.Icmp6.decCodeLen is a total function over the option's byte list (byteAt / take / drop), not a fault-explicit read; tie: typed-getter sweep of harness/wire_icmp.h under ASan on an exact-size option buffer (options of at most 8 bytes live in the object's small buffer, where a short over-read is not seen); why it does not fault: reads byte 0, then *ptr (byte 1) after data_size >= 2, and assigns [2, 2 + len) after (end - ptr - 1) < *ptr was excluded"),
+    .modelled "Tins.Wire.Raw.Icmp6.codeLen (mobile_node_id_type::from_option is the same code, statement for statement)" "handover_assist_info_type::from_option *ptr" "Tins.Wire.Raw.Icmp6.codeLen_eq (= ok of Icmp6.decCodeLen, which harness/wire_icmp.h compares with the typed getter; Props.C01.raw_decoders_safe_icmp6)" [rk% "ICMPv6::mobile_node_id_type::from_option(const Tins::ICMPv6::option &) | guard | opt.data_size() < 2", rk% "ICMPv6::mobile_node_id_type::from_option(const Tins::ICMPv6::option &) | guard | (end - ptr - 1) <* ptr"]),
   (rk% "ICMPv6::mobile_node_id_type::from_option(const Tins::ICMPv6::option &) | deref | *ptr",
-    .unmodelled "Tins.Wire.Icmp.Icmp6.decCodeLen is a total function over the option's byte list (byteAt / take / drop), not a fault-explicit read; tie: typed-getter sweep of harness/wire_icmp.h under ASan on an exact-size option buffer (options of at most 8 bytes live in the object's small buffer, where a short over-read is not seen); why it does not fault: reads byte 0, then *ptr (byte 1) after data_size >= 2, and assigns [2, 2 + len) after (end - ptr - 1) < *ptr was excluded"),
+    .modelled "Tins.Wire.Raw.Icmp6.codeLen (mobile_node_id_type::from_option is the same code, statement for statement)" "handover_assist_info_type::from_option *ptr" "Tins.Wire.Raw.Icmp6.codeLen_eq (= ok of Icmp6.decCodeLen, which harness/wire_icmp.h compares with the typed getter; Props.C01.raw_decoders_safe_icmp6)" [rk% "ICMPv6::mobile_node_id_type::from_option(const Tins::ICMPv6::option &) | guard | opt.data_size() < 2", rk% "ICMPv6::mobile_node_id_type::from_option(const Tins::ICMPv6::option &) | guard | (end - ptr - 1) <* ptr"]),
   (rk% "ICMPv6::mobile_node_id_type::from_option(const Tins::ICMPv6::option &) | deref | *ptr++",
-    .unmodelled "Tins.Wire.Icmp.Icmp6.decCodeLen is a total function over the option's byte list (byteAt / take / drop), not a fault-explicit read; tie: typed-getter sweep of harness/wire_icmp.h under ASan on an exact-size option buffer (options of at most 8 bytes live in the object's small buffer, where a short over-read is not seen); why it does not fault: reads byte 0, then *ptr (byte 1) after data_size >= 2, and assigns [2, 2 + len) after (end - ptr - 1) < *ptr was excluded"),
+    .modelled "Tins.Wire.Raw.Icmp6.codeLen (mobile_node_id_type::from_option is the same code, statement for statement)" "handover_assist_info_type::from_option *ptr++" "Tins.Wire.Raw.Icmp6.codeLen_eq (= ok of Icmp6.decCodeLen, which harness/wire_icmp.h compares with the typed getter; Props.C01.raw_decoders_safe_icmp6)" [rk% "ICMPv6::mobile_node_id_type::from_option(const Tins::ICMPv6::option &) | guard | opt.data_size() < 2", rk% "ICMPv6::mobile_node_id_type::from_option(const Tins::ICMPv6::option &) | guard | (end - ptr - 1) <* ptr"]),
   (rk% "ICMPv6::mobile_node_id_type::from_option(const Tins::ICMPv6::option &) | externCall | output.mn.assign(ptr + 1, ptr + 1 + *ptr)",
-    .unmodelled "Tins.Wire.Icmp.Icmp6.decCodeLen is a total function over the option's byte list (byteAt / take / drop), not a fault-explicit read; tie: typed-getter sweep of harness/wire_icmp.h under ASan on an exact-size option buffer (options of at most 8 bytes live in the object's small buffer, where a short over-read is not seen); why it does not fault: reads byte 0, then *ptr (byte 1) after data_size >= 2, and assigns [2, 2 + len) after (end - ptr - 1) < *ptr was excluded"),
+    .modelled "Tins.Wire.Raw.Icmp6.codeLen (mobile_node_id_type::from_option is the same code, statement for statement)" "handover_assist_info_type::from_option hai.assign(ptr + 1, ptr + 1 + *ptr)" "Tins.Wire.Raw.Icmp6.codeLen_eq (= ok of Icmp6.decCodeLen, which harness/wire_icmp.h compares with the typed getter; Props.C01.raw_decoders_safe_icmp6)" [rk% "ICMPv6::mobile_node_id_type::from_option(const Tins::ICMPv6::option &) | guard | opt.data_size() < 2", rk% "ICMPv6::mobile_node_id_type::from_option(const Tins::ICMPv6::option &) | guard | (end - ptr - 1) <* ptr"]),
   (rk% "ICMPv6::mobile_node_id_type::from_option(const Tins::ICMPv6::option &) | ptrArith | ptr + opt.data_size()",
-    .unmodelled "Tins.Wire.Icmp.Icmp6.decCodeLen is a total function over the option's byte list (byteAt / take / drop), not a fault-explicit read; tie: typed-getter sweep of harness/wire_icmp.h under ASan on an exact-size option buffer (options of at most 8 bytes live in the object's small buffer, where a short over-read is not seen); why it does not fault: reads byte 0, then *ptr (byte 1) after data_size >= 2, and assigns [2, 2 + len) after (end - ptr - 1) < *ptr was excluded"),
+    .modelled "Tins.Wire.Raw.Icmp6.codeLen (end as an offset: compared only) (mobile_node_id_type::from_option is the same code, statement for statement)" "" "Tins.Wire.Raw.Icmp6.codeLen_eq (= ok of Icmp6.decCodeLen, which harness/wire_icmp.h compares with the typed getter; Props.C01.raw_decoders_safe_icmp6)" [rk% "ICMPv6::mobile_node_id_type::from_option(const Tins::ICMPv6::option &) | guard | opt.data_size() < 2", rk% "ICMPv6::mobile_node_id_type::from_option(const Tins::ICMPv6::option &) | guard | (end - ptr - 1) <* ptr"]),
   -- ICMPv6::multicast_address_record::multicast_address_record(const uint8_t *, uint32_t)
   (rk% "ICMPv6::multicast_address_record::multicast_address_record(const uint8_t *, uint32_t) | externCall | aux_data.assign(stream.pointer(), stream.pointer() + aux_data_len)",
     .modelled "Tins.Wire.Icmp.McastRec.parse" "ICMPv6::multicast_address_record aux_data" "Tins.Wire.Icmp.icmp6_parse_safe" [rk% "ICMPv6::multicast_address_record::multicast_address_record(const uint8_t *, uint32_t) | guard | !stream.can_read(aux_data_len)"]),
   -- ICMPv6::naack_type::from_option(const Tins::ICMPv6::option &)
   (rk% "ICMPv6::naack_type::from_option(const Tins::ICMPv6::option &) | deref | *opt.data_ptr()",
-    .unmodelled "Tins.Wire.Icmp.Icmp6.decNaack is a total function over the option's byte list (byteAt / take / drop), not a fault-explicit read; tie: typed-getter sweep of harness/wire_icmp.h under ASan on an exact-size option buffer (options of at most 8 bytes live in the object's small buffer, where a short over-read is not seen); why it does not fault: reads bytes 0 and 1 after data_size == 6"),
+    .modelled "Tins.Wire.Raw.Icmp6.naack" "naack_type::from_option *opt.data_ptr()" "Tins.Wire.Raw.Icmp6.naack_eq (= ok of Icmp6.decNaack, which harness/wire_icmp.h compares with the typed getter; Props.C01.raw_decoders_safe_icmp6)" [rk% "ICMPv6::naack_type::from_option(const Tins::ICMPv6::option &) | guard | opt.data_size() != 6"]),
   (rk% "ICMPv6::naack_type::from_option(const Tins::ICMPv6::option &) | subscript | opt.data_ptr()[1]",
-    .unmodelled "Tins.Wire.Icmp.Icmp6.decNaack is a total function over the option's byte list (byteAt / take / drop), not a fault-explicit read; tie: typed-getter sweep of harness/wire_icmp.h under ASan on an exact-size option buffer (options of at most 8 bytes live in the object's small buffer, where a short over-read is not seen); why it does not fault: reads bytes 0 and 1 after data_size == 6"),
+    .modelled "Tins.Wire.Raw.Icmp6.naack" "naack_type::from_option opt.data_ptr()[1]" "Tins.Wire.Raw.Icmp6.naack_eq (= ok of Icmp6.decNaack, which harness/wire_icmp.h compares with the typed getter; Props.C01.raw_decoders_safe_icmp6)" [rk% "ICMPv6::naack_type::from_option(const Tins::ICMPv6::option &) | guard | opt.data_size() != 6"]),
   -- ICMPv6::naack_type::naack_type(uint8_t, uint8_t)
   (rk% "ICMPv6::naack_type::naack_type(uint8_t, uint8_t) | externCall | std::fill(reserved, reserved + 4, static_cast<uint8_t>(0))",
     .argued "std::fill over the object's own fixed-size array with its own sizeof; no wire byte is read" []),
@@ -311,22 +312,22 @@ def table : List (Key × Disposition) := [
     .modelled "Tins.Wire.Ip.Ip4.parse (Cursor.ofBytes b: total_sz is reassigned only after the stream was built)" "" "Tins.Wire.Ip.ip4_parse_safe" []),
   -- IP::extract_metadata(const uint8_t *, uint32_t)
   (rk% "IP::extract_metadata(const uint8_t *, uint32_t) | arrow | header->ihl",
-    .unmodelled "no Lean model of this function (Coverage: harnessOnly): reads header->ihl (offset 0) and header->protocol (offset 9) through the cast after `total_sz < sizeof(ip_header)` (20) was excluded; driven by harness/c01_entry.cpp at every length 0..40"),
+    .modelled "Tins.Wire.Raw.Misc.ipMetadata" "IP::extract_metadata header->ihl" "Tins.Wire.Raw.Misc.ipMetadata_safe (Props.C01.raw_decoders_safe_misc; sizes / offsets = Gen.Layout: metadata_layout; tie: `entry-raw-model` clause of Driver/C01.lean on harness/c01_entry.cpp)" [rk% "IP::extract_metadata(const uint8_t *, uint32_t) | guard | TINS_UNLIKELY(total_sz < sizeof(ip_header))"]),
   (rk% "IP::extract_metadata(const uint8_t *, uint32_t) | arrow | header->protocol",
-    .unmodelled "no Lean model of this function (Coverage: harnessOnly): reads header->ihl (offset 0) and header->protocol (offset 9) through the cast after `total_sz < sizeof(ip_header)` (20) was excluded; driven by harness/c01_entry.cpp at every length 0..40"),
+    .modelled "Tins.Wire.Raw.Misc.ipMetadata" "IP::extract_metadata header->protocol" "Tins.Wire.Raw.Misc.ipMetadata_safe (Props.C01.raw_decoders_safe_misc; sizes / offsets = Gen.Layout: metadata_layout; tie: `entry-raw-model` clause of Driver/C01.lean on harness/c01_entry.cpp)" [rk% "IP::extract_metadata(const uint8_t *, uint32_t) | guard | TINS_UNLIKELY(total_sz < sizeof(ip_header))"]),
   (rk% "IP::extract_metadata(const uint8_t *, uint32_t) | castToStruct | (const ip_header*)buffer",
-    .unmodelled "no Lean model of this function (Coverage: harnessOnly): reads header->ihl (offset 0) and header->protocol (offset 9) through the cast after `total_sz < sizeof(ip_header)` (20) was excluded; driven by harness/c01_entry.cpp at every length 0..40"),
+    .modelled "Tins.Wire.Raw.Misc.ipMetadata (the cast reads nothing; the reads through it are the arrow rows)" "" "Tins.Wire.Raw.Misc.ipMetadata_safe (Props.C01.raw_decoders_safe_misc; sizes / offsets = Gen.Layout: metadata_layout; tie: `entry-raw-model` clause of Driver/C01.lean on harness/c01_entry.cpp)" [rk% "IP::extract_metadata(const uint8_t *, uint32_t) | guard | TINS_UNLIKELY(total_sz < sizeof(ip_header))"]),
   -- IP::generic_route_option_type::from_option(const Tins::IP::option &)
   (rk% "IP::generic_route_option_type::from_option(const Tins::IP::option &) | deref | *opt.data_ptr()",
-    .unmodelled "Tins.Wire.Ip.Ip4.decodeRoute / chunks4 is a total function over the option's byte list (structural `take 4`), not a fault-explicit pointer walk: `*opt.data_ptr()`, `memcpy(&buf, route, 4)` inside `while (route < end)` are raw; safe because data_size >= 1 and (data_size - 1) % 4 == 0 — an argument, not a theorem; tie: typed-getter sweep of harness/wire_ip.h"),
+    .modelled "Tins.Wire.Raw.Misc.route" "generic_route_option_type::from_option *opt.data_ptr()" "Tins.Wire.Raw.Misc.route_eq (= Ip4.decodeRoute, which harness/wire_ip.h compares with the typed getters; Props.C01.raw_decoders_safe_misc)" [rk% "IP::generic_route_option_type::from_option(const Tins::IP::option &) | guard | opt.data_size() < 1 || ((opt.data_size() - 1) % sizeof(uint32_t)) != 0", rk% "IP::generic_route_option_type::from_option(const Tins::IP::option &) | guard | route < end"]),
   (rk% "IP::generic_route_option_type::from_option(const Tins::IP::option &) | memcpy | memcpy(&uint32_t_buffer, route, sizeof(uint32_t))",
-    .unmodelled "Tins.Wire.Ip.Ip4.decodeRoute / chunks4 is a total function over the option's byte list (structural `take 4`), not a fault-explicit pointer walk: `*opt.data_ptr()`, `memcpy(&buf, route, 4)` inside `while (route < end)` are raw; safe because data_size >= 1 and (data_size - 1) % 4 == 0 — an argument, not a theorem; tie: typed-getter sweep of harness/wire_ip.h"),
+    .modelled "Tins.Wire.Raw.Misc.routeLoop" "generic_route_option_type::from_option memcpy(&uint32_t_buffer, route, sizeof(uint32_t))" "Tins.Wire.Raw.Misc.route_eq (= Ip4.decodeRoute, which harness/wire_ip.h compares with the typed getters; Props.C01.raw_decoders_safe_misc)" [rk% "IP::generic_route_option_type::from_option(const Tins::IP::option &) | guard | opt.data_size() < 1 || ((opt.data_size() - 1) % sizeof(uint32_t)) != 0", rk% "IP::generic_route_option_type::from_option(const Tins::IP::option &) | guard | route < end"]),
   (rk% "IP::generic_route_option_type::from_option(const Tins::IP::option &) | ptrArith | opt.data_ptr() + 1",
-    .unmodelled "Tins.Wire.Ip.Ip4.decodeRoute / chunks4 is a total function over the option's byte list (structural `take 4`), not a fault-explicit pointer walk: `*opt.data_ptr()`, `memcpy(&buf, route, 4)` inside `while (route < end)` are raw; safe because data_size >= 1 and (data_size - 1) % 4 == 0 — an argument, not a theorem; tie: typed-getter sweep of harness/wire_ip.h"),
+    .modelled "Tins.Wire.Raw.Misc.route / routeLoop (route, end as offsets; compared / advanced, read only by the memcpy row)" "" "Tins.Wire.Raw.Misc.route_eq (= Ip4.decodeRoute, which harness/wire_ip.h compares with the typed getters; Props.C01.raw_decoders_safe_misc)" [rk% "IP::generic_route_option_type::from_option(const Tins::IP::option &) | guard | opt.data_size() < 1 || ((opt.data_size() - 1) % sizeof(uint32_t)) != 0", rk% "IP::generic_route_option_type::from_option(const Tins::IP::option &) | guard | route < end"]),
   (rk% "IP::generic_route_option_type::from_option(const Tins::IP::option &) | ptrArith | route + opt.data_size() - 1",
-    .unmodelled "Tins.Wire.Ip.Ip4.decodeRoute / chunks4 is a total function over the option's byte list (structural `take 4`), not a fault-explicit pointer walk: `*opt.data_ptr()`, `memcpy(&buf, route, 4)` inside `while (route < end)` are raw; safe because data_size >= 1 and (data_size - 1) % 4 == 0 — an argument, not a theorem; tie: typed-getter sweep of harness/wire_ip.h"),
+    .modelled "Tins.Wire.Raw.Misc.route / routeLoop (route, end as offsets; compared / advanced, read only by the memcpy row)" "" "Tins.Wire.Raw.Misc.route_eq (= Ip4.decodeRoute, which harness/wire_ip.h compares with the typed getters; Props.C01.raw_decoders_safe_misc)" [rk% "IP::generic_route_option_type::from_option(const Tins::IP::option &) | guard | opt.data_size() < 1 || ((opt.data_size() - 1) % sizeof(uint32_t)) != 0", rk% "IP::generic_route_option_type::from_option(const Tins::IP::option &) | guard | route < end"]),
   (rk% "IP::generic_route_option_type::from_option(const Tins::IP::option &) | ptrArith | route += sizeof(uint32_t)",
-    .unmodelled "Tins.Wire.Ip.Ip4.decodeRoute / chunks4 is a total function over the option's byte list (structural `take 4`), not a fault-explicit pointer walk: `*opt.data_ptr()`, `memcpy(&buf, route, 4)` inside `while (route < end)` are raw; safe because data_size >= 1 and (data_size - 1) % 4 == 0 — an argument, not a theorem; tie: typed-getter sweep of harness/wire_ip.h"),
+    .modelled "Tins.Wire.Raw.Misc.route / routeLoop (route, end as offsets; compared / advanced, read only by the memcpy row)" "" "Tins.Wire.Raw.Misc.route_eq (= Ip4.decodeRoute, which harness/wire_ip.h compares with the typed getters; Props.C01.raw_decoders_safe_misc)" [rk% "IP::generic_route_option_type::from_option(const Tins::IP::option &) | guard | opt.data_size() < 1 || ((opt.data_size() - 1) % sizeof(uint32_t)) != 0", rk% "IP::generic_route_option_type::from_option(const Tins::IP::option &) | guard | route < end"]),
   -- IPv4Address::ip_to_int(const char *)
   (rk% "IPv4Address::ip_to_int(const char *) | externCall | inet_pton(AF_INET, ip, &addr)",
     .argued "text → address conversion of the (const char*) constructor, reached only because a construction is followed to every constructor it could name; `&addr` is a local; no wire byte is involved" []),
@@ -372,16 +373,16 @@ def table : List (Key × Disposition) := [
     .argued "string(ptr, ptr + data_size): exactly the (pointer, size) pair it was handed (optionData at every caller)" []),
   -- Internals::Converters::convert(const uint8_t *, uint32_t, PDU::endian_type, type_to_type<std::vector<IPv6Address>>)
   (rk% "Internals::Converters::convert(const uint8_t *, uint32_t, PDU::endian_type, type_to_type<std::vector<IPv6Address>>) | ptrArith | ptr + data_size",
-    .unmodelled "the Lean decoders (chunks 16) are total functions, not a pointer walk: IPv6Address(ptr) reads 16 bytes inside `while (ptr < end)` with data_size % 16 == 0 — an argument, not a theorem"),
+    .modelled "Tins.Wire.Raw.Misc.addr6Loop (ptr, end as offsets)" "" "Tins.Wire.Raw.Misc.addr6List_eq / addr6List_noFault (= `chunks 16 (n / 16)` of the total decoders; Props.C01.raw_decoders_safe_misc)" [rk% "Internals::Converters::convert(const uint8_t *, uint32_t, PDU::endian_type, type_to_type<std::vector<IPv6Address>>) | guard | data_size % IPv6Address::address_size != 0", rk% "Internals::Converters::convert(const uint8_t *, uint32_t, PDU::endian_type, type_to_type<std::vector<IPv6Address>>) | guard | ptr < end"]),
   (rk% "Internals::Converters::convert(const uint8_t *, uint32_t, PDU::endian_type, type_to_type<std::vector<IPv6Address>>) | ptrArith | ptr += IPv6Address::address_size",
-    .unmodelled "the Lean decoders (chunks 16) are total functions, not a pointer walk: IPv6Address(ptr) reads 16 bytes inside `while (ptr < end)` with data_size % 16 == 0 — an argument, not a theorem"),
+    .modelled "Tins.Wire.Raw.Misc.addr6Loop (ptr, end as offsets)" "" "Tins.Wire.Raw.Misc.addr6List_eq / addr6List_noFault (= `chunks 16 (n / 16)` of the total decoders; Props.C01.raw_decoders_safe_misc)" [rk% "Internals::Converters::convert(const uint8_t *, uint32_t, PDU::endian_type, type_to_type<std::vector<IPv6Address>>) | guard | data_size % IPv6Address::address_size != 0", rk% "Internals::Converters::convert(const uint8_t *, uint32_t, PDU::endian_type, type_to_type<std::vector<IPv6Address>>) | guard | ptr < end"]),
   (rk% "Internals::Converters::convert(const uint8_t *, uint32_t, PDU::endian_type, type_to_type<std::vector<IPv6Address>>) | ptrPass | IPv6Address(ptr)",
-    .unmodelled "the Lean decoders (chunks 16) are total functions, not a pointer walk: IPv6Address(ptr) reads 16 bytes inside `while (ptr < end)` with data_size % 16 == 0 — an argument, not a theorem"),
+    .modelled "Tins.Wire.Raw.Misc.addr6Loop" "Converters::convert<vector<IPv6Address>> IPv6Address(ptr)" "Tins.Wire.Raw.Misc.addr6List_eq / addr6List_noFault (= `chunks 16 (n / 16)` of the total decoders; Props.C01.raw_decoders_safe_misc)" [rk% "Internals::Converters::convert(const uint8_t *, uint32_t, PDU::endian_type, type_to_type<std::vector<IPv6Address>>) | guard | data_size % IPv6Address::address_size != 0", rk% "Internals::Converters::convert(const uint8_t *, uint32_t, PDU::endian_type, type_to_type<std::vector<IPv6Address>>) | guard | ptr < end"]),
   -- Internals::Converters::convert(const uint8_t *, uint32_t, PDU::endian_type, type_to_type<std::vector<float>>)
   (rk% "Internals::Converters::convert(const uint8_t *, uint32_t, PDU::endian_type, type_to_type<std::vector<float>>) | deref | *(ptr++)",
-    .unmodelled "Tins.Wire.Wifi.Tagged.decodeRates is `d.map`, not a pointer walk: `*(ptr++)` inside `while (ptr != end)`, end = ptr + data_size — an argument, not a theorem"),
+    .modelled "Tins.Wire.Raw.Wifi.ratesLoop" "Converters::convert<vector<float>> *(ptr++)" "Tins.Wire.Raw.Wifi.rates_eq (= ok of Tagged.decodeRates, compared with supported_rates() by harness/wire_wifi.h; Props.C01.raw_decoders_safe_wifi)" [rk% "Internals::Converters::convert(const uint8_t *, uint32_t, PDU::endian_type, type_to_type<std::vector<float>>) | guard | ptr != end"]),
   (rk% "Internals::Converters::convert(const uint8_t *, uint32_t, PDU::endian_type, type_to_type<std::vector<float>>) | ptrArith | ptr + data_size",
-    .unmodelled "Tins.Wire.Wifi.Tagged.decodeRates is `d.map`, not a pointer walk: `*(ptr++)` inside `while (ptr != end)`, end = ptr + data_size — an argument, not a theorem"),
+    .modelled "Tins.Wire.Raw.Wifi.rates (end as an offset)" "" "Tins.Wire.Raw.Wifi.rates_eq (= ok of Tagged.decodeRates, compared with supported_rates() by harness/wire_wifi.h; Props.C01.raw_decoders_safe_wifi)" [rk% "Internals::Converters::convert(const uint8_t *, uint32_t, PDU::endian_type, type_to_type<std::vector<float>>) | guard | ptr != end"]),
   -- Internals::Converters::convert(const uint8_t *, uint32_t, PDU::endian_type, type_to_type<uint8_t>)
   (rk% "Internals::Converters::convert(const uint8_t *, uint32_t, PDU::endian_type, type_to_type<uint8_t>) | deref | *ptr",
     .modelled "Tins.Wire.Transport.Tcp.decodeU8" "Converters::convert<uint8_t> *ptr" "Tins.Wire.Transport.tcp_decodeU8_safe" [rk% "Internals::Converters::convert(const uint8_t *, uint32_t, PDU::endian_type, type_to_type<uint8_t>) | guard | data_size != 1"]),
@@ -396,15 +397,15 @@ def table : List (Key × Disposition) := [
     .argued "forwards (id, buffer, size) unmodified to PDUAllocator<Tag>::allocate (dependent call in a template: the scan cannot resolve the callee)" []),
   -- Internals::hw_address_to_string(const uint8_t *, size_t)
   (rk% "Internals::hw_address_to_string(const uint8_t *, size_t) | subscript | ptr[i]",
-    .unmodelled "no Lean model: ptr[i] for i < count, count being the size the caller states (HWAddress::to_string passes its own array and n); driven by harness/c01_entry.cpp"),
+    .modelled "Tins.Wire.Raw.Misc.hwToStringLoop" "hw_address_to_string ptr[i]" "Tins.Wire.Raw.Misc.hwToString_noFault (for every count ≤ the bytes that exist; tie: `entry-raw-model` clause of Driver/C01.lean compares the text)" [rk% "Internals::hw_address_to_string(const uint8_t *, size_t) | guard | i < count"]),
   -- Internals::is_dot3(const uint8_t *, size_t)
   (rk% "Internals::is_dot3(const uint8_t *, size_t) | subscript | ptr[12]",
     .modelled "Tins.Wire.L2.Ppi.isDot3" "Internals::is_dot3 ptr[12]" "Tins.Wire.L2.isDot3_safe" []),
   -- Internals::option2class_option_data(const uint8_t *, uint32_t)
   (rk% "Internals::option2class_option_data(const uint8_t *, uint32_t) | externCall | value_type(ptr + index, ptr + index + size)",
-    .unmodelled "Tins.Wire.App.Dhcpv6.classData is a total function over the byte list (take / drop), not a fault-explicit pointer walk: the memcpy of the 16-bit length at ptr + index is behind `index + 2 <= total_sz`, the copy of [ptr + index, ptr + index + size) behind `index + size > total_sz` → throw — an argument, not a theorem; tie: typed-getter sweep of harness/wire_app.h (user_class / vendor_class)"),
+    .modelled "Tins.Wire.Raw.Misc.classLoop" "option2class_option_data value_type(ptr + index, ptr + index + size)" "Tins.Wire.Raw.Misc.classDataRaw_eq (= ok of App.Dhcpv6.classData, which harness/wire_app.h compares with user_class / vendor_class; Props.C01.raw_decoders_safe_misc)" [rk% "Internals::option2class_option_data(const uint8_t *, uint32_t) | guard | index + 2 <= total_sz", rk% "Internals::option2class_option_data(const uint8_t *, uint32_t) | guard | index + size > total_sz", rk% "Internals::option2class_option_data(const uint8_t *, uint32_t) | guard | index != total_sz"]),
   (rk% "Internals::option2class_option_data(const uint8_t *, uint32_t) | memcpy | memcpy(&size, ptr + index, sizeof(uint16_t))",
-    .unmodelled "Tins.Wire.App.Dhcpv6.classData is a total function over the byte list (take / drop), not a fault-explicit pointer walk: the memcpy of the 16-bit length at ptr + index is behind `index + 2 <= total_sz`, the copy of [ptr + index, ptr + index + size) behind `index + size > total_sz` → throw — an argument, not a theorem; tie: typed-getter sweep of harness/wire_app.h (user_class / vendor_class)"),
+    .modelled "Tins.Wire.Raw.Misc.classLoop" "option2class_option_data memcpy(&size, ptr + index, sizeof(uint16_t))" "Tins.Wire.Raw.Misc.classDataRaw_eq (= ok of App.Dhcpv6.classData, which harness/wire_app.h compares with user_class / vendor_class; Props.C01.raw_decoders_safe_misc)" [rk% "Internals::option2class_option_data(const uint8_t *, uint32_t) | guard | index + 2 <= total_sz", rk% "Internals::option2class_option_data(const uint8_t *, uint32_t) | guard | index + size > total_sz", rk% "Internals::option2class_option_data(const uint8_t *, uint32_t) | guard | index != total_sz"]),
   -- Internals::try_parse_icmp_extensions(Memory::InputMemoryStream &, uint32_t, Tins::ICMPExtensionsStructure &)
   (rk% "Internals::try_parse_icmp_extensions(Memory::InputMemoryStream &, uint32_t, Tins::ICMPExtensionsStructure &) | ptrArith | stream.pointer() + minimum_payload",
     .modelled "Tins.Wire.Icmp.tryParseExt (extMem := c.mem.drop off, extSize := c.size - off with off ≤ c.size by can_read)" "" "Tins.Wire.Icmp.tryParseExt_good" [rk% "Internals::try_parse_icmp_extensions(Memory::InputMemoryStream &, uint32_t, Tins::ICMPExtensionsStructure &) | guard | stream.can_read(payload_length) && payload_length >= minimum_payload", rk% "Internals::try_parse_icmp_extensions(Memory::InputMemoryStream &, uint32_t, Tins::ICMPExtensionsStructure &) | guard | stream.can_read(minimum_payload)"]),
@@ -507,9 +508,9 @@ def table : List (Key × Disposition) := [
     .argued "perfect forwarding of the arguments to the PDUOption constructor (C++11 emplace_back); no byte is touched here" []),
   -- TCP::extract_metadata(const uint8_t *, uint32_t)
   (rk% "TCP::extract_metadata(const uint8_t *, uint32_t) | arrow | header->doff",
-    .unmodelled "no Lean model of this function (Coverage: harnessOnly): reads header->doff (offset 12) through the cast after `total_sz < sizeof(tcp_header)` (20) was excluded; driven by harness/c01_entry.cpp at every length 0..40"),
+    .modelled "Tins.Wire.Raw.Misc.tcpMetadata" "TCP::extract_metadata header->doff" "Tins.Wire.Raw.Misc.tcpMetadata_safe (Props.C01.raw_decoders_safe_misc; sizes / offsets = Gen.Layout: metadata_layout; tie: `entry-raw-model` clause of Driver/C01.lean on harness/c01_entry.cpp)" [rk% "TCP::extract_metadata(const uint8_t *, uint32_t) | guard | TINS_UNLIKELY(total_sz < sizeof(tcp_header))"]),
   (rk% "TCP::extract_metadata(const uint8_t *, uint32_t) | castToStruct | (const tcp_header*)buffer",
-    .unmodelled "no Lean model of this function (Coverage: harnessOnly): reads header->doff (offset 12) through the cast after `total_sz < sizeof(tcp_header)` (20) was excluded; driven by harness/c01_entry.cpp at every length 0..40"),
+    .modelled "Tins.Wire.Raw.Misc.tcpMetadata (the cast reads nothing; the read through it is the arrow row)" "" "Tins.Wire.Raw.Misc.tcpMetadata_safe (Props.C01.raw_decoders_safe_misc; sizes / offsets = Gen.Layout: metadata_layout; tie: `entry-raw-model` clause of Driver/C01.lean on harness/c01_entry.cpp)" [rk% "TCP::extract_metadata(const uint8_t *, uint32_t) | guard | TINS_UNLIKELY(total_sz < sizeof(tcp_header))"]),
   -- Tins::read_encoded_dname(Tins::Memory::InputMemoryStream &)
   (rk% "Tins::read_encoded_dname(Tins::Memory::InputMemoryStream &) | externCall | output(start, terminator)",
     .modelled "Tins.Dns.readEncodedDname / findNul (std::find over [start, start + stream.size()) is a bounded rd loop, string(start, terminator) an rdN)" "" "Tins.Props.C10.soa_init_safe" [rk% "Tins::read_encoded_dname(Tins::Memory::InputMemoryStream &) | guard | terminator == end"]),
@@ -564,16 +565,16 @@ def table : List (Key × Disposition) := [
   (rk% "Utils::crc32(const uint8_t *, uint32_t) | arraySubscript | crc_table[(crc ^ data[i]) & 0x0F]",
     .argued "index `& 0x0F` into the 16-entry table" []),
   (rk% "Utils::crc32(const uint8_t *, uint32_t) | subscript | data[i] | x2",
-    .unmodelled "no fault-explicit model (Tins.Wire.Wifi.crc32 / Props C05 fold over a byte list): data[i] for i < data_size, the size the caller states"),
+    .modelled "Tins.Wire.Raw.Misc.crcLoop" "crc32 data[i]" "Tins.Wire.Raw.Misc.crc32Raw_eq (= Wifi.crc32 over exactly data[0 .. data_size); tie: `entry-raw-model` clause of Driver/C01.lean compares the value)" [rk% "Utils::crc32(const uint8_t *, uint32_t) | guard | i < data_size"]),
   -- Utils::sum_range(const uint8_t *, const uint8_t *)
   (rk% "Utils::sum_range(const uint8_t *, const uint8_t *) | deref | *(end - 1)",
-    .unmodelled "no fault-explicit model (Tins.Wire.Icmp.sumRange / Props C05 fold over the byte list the caller's `rdN` delivered): 2-byte memcpy inside `ptr < last` (last = end or end - 1), `*(end - 1)` when the length is odd (hence ≥ 1); reads exactly [start, end), the range the caller states (validate_extensions: modelled by its rdN)"),
+    .modelled "Tins.Wire.Raw.Misc.sumRangeRaw" "sum_range *(end - 1)" "Tins.Wire.Raw.Misc.sumRangeRaw_eq (= Wire.sumRange over exactly [start, end), the total model every checksum writer / validate_extensions uses)" [rk% "Utils::sum_range(const uint8_t *, const uint8_t *) | guard | ((end - start) & 1) == 1", rk% "Utils::sum_range(const uint8_t *, const uint8_t *) | guard | ptr < last"]),
   (rk% "Utils::sum_range(const uint8_t *, const uint8_t *) | memcpy | memcpy(&buffer, ptr, sizeof(uint16_t))",
-    .unmodelled "no fault-explicit model (Tins.Wire.Icmp.sumRange / Props C05 fold over the byte list the caller's `rdN` delivered): 2-byte memcpy inside `ptr < last` (last = end or end - 1), `*(end - 1)` when the length is odd (hence ≥ 1); reads exactly [start, end), the range the caller states (validate_extensions: modelled by its rdN)"),
+    .modelled "Tins.Wire.Raw.Misc.sumLoop" "sum_range memcpy(&buffer, ptr, sizeof(uint16_t))" "Tins.Wire.Raw.Misc.sumRangeRaw_eq (= Wire.sumRange over exactly [start, end), the total model every checksum writer / validate_extensions uses)" [rk% "Utils::sum_range(const uint8_t *, const uint8_t *) | guard | ((end - start) & 1) == 1", rk% "Utils::sum_range(const uint8_t *, const uint8_t *) | guard | ptr < last"]),
   (rk% "Utils::sum_range(const uint8_t *, const uint8_t *) | ptrArith | end - 1",
-    .unmodelled "no fault-explicit model (Tins.Wire.Icmp.sumRange / Props C05 fold over the byte list the caller's `rdN` delivered): 2-byte memcpy inside `ptr < last` (last = end or end - 1), `*(end - 1)` when the length is odd (hence ≥ 1); reads exactly [start, end), the range the caller states (validate_extensions: modelled by its rdN)"),
+    .modelled "Tins.Wire.Raw.Misc.sumRangeRaw / sumLoop (last, ptr as offsets)" "" "Tins.Wire.Raw.Misc.sumRangeRaw_eq (= Wire.sumRange over exactly [start, end), the total model every checksum writer / validate_extensions uses)" [rk% "Utils::sum_range(const uint8_t *, const uint8_t *) | guard | ((end - start) & 1) == 1", rk% "Utils::sum_range(const uint8_t *, const uint8_t *) | guard | ptr < last"]),
   (rk% "Utils::sum_range(const uint8_t *, const uint8_t *) | ptrArith | ptr += sizeof(uint16_t)",
-    .unmodelled "no fault-explicit model (Tins.Wire.Icmp.sumRange / Props C05 fold over the byte list the caller's `rdN` delivered): 2-byte memcpy inside `ptr < last` (last = end or end - 1), `*(end - 1)` when the length is odd (hence ≥ 1); reads exactly [start, end), the range the caller states (validate_extensions: modelled by its rdN)")
+    .modelled "Tins.Wire.Raw.Misc.sumRangeRaw / sumLoop (last, ptr as offsets)" "" "Tins.Wire.Raw.Misc.sumRangeRaw_eq (= Wire.sumRange over exactly [start, end), the total model every checksum writer / validate_extensions uses)" [rk% "Utils::sum_range(const uint8_t *, const uint8_t *) | guard | ((end - start) & 1) == 1", rk% "Utils::sum_range(const uint8_t *, const uint8_t *) | guard | ptr < last"])
 ]
 
 /-! ### rule rows -/
